@@ -8,7 +8,7 @@
      pkg/haproxy/dynupdate.go       update / checkConfigChange, reduced to "is this update a no-op"
      pkg/haproxy/instance.go        HAProxyUpdate (deferred Commit, lastFailed), writeCrtLists,
                                     writeConfig (main file always, shards only ChangedShards), Reload
-   as they are after the fix commits c6e0f62, f296c05, 742b5de (C05) and 348fb25, 7d37a3e (C12).
+   as they are after the fix commits c6e0f62, f296c05, 742b5de (C05), 348fb25, 7d37a3e (C12) and d8ef0ec (default backend moved to an existing backend).
 
    Go maps are finite partial functions [N -> option _]; the places where the code ranges
    over a map (Shrink, Clear, Changed ...) quantify over an explicit finite universe of
@@ -54,6 +54,8 @@ Definition bcont_eqb (a b : bcont) : bool :=
 Definition hcont_eqb (a b : hcont) : bool :=
   (hver a =? hver b) && Bool.eqb (htls a) (htls b) && list_eqb pair_eqb (hpaths a) (hpaths b).
 
+Definition optN_eqb (a b : option N) : bool :=
+  match a, b with Some x, Some y => x =? y | None, None => true | _, _ => false end.
 Definition hroot (c : hcont) : option N :=
   match find (fun p : N * N => fst p =? 0) (hpaths c) with Some p => Some (snd p) | None => None end.
 Definition tport (t : N) : N := t mod 10.
@@ -75,23 +77,25 @@ Definition ports (e : env) : list N := map tport (UT e).
 Record backends := {
   b_items : fmap bcont; b_add : fmap bcont; b_del : fmap bcont;
   b_chg : N -> bool;          (* changedShards *)
-  b_def : option N            (* DefaultBackend *)
+  b_def : option N;           (* DefaultBackend *)
+  b_defc : option N           (* defaultBackendCommitted: the default backend at the last Commit *)
 }.
 Definition backs_empty : backends :=
-  {| b_items := fempty; b_add := fempty; b_del := fempty; b_chg := fun _ => false; b_def := None |}.
+  {| b_items := fempty; b_add := fempty; b_del := fempty; b_chg := fun _ => false; b_def := None; b_defc := None |}.
 
 (* Clear: a new struct whose itemsDel are the old items; the shards that held a backend are flagged *)
 Definition backs_clear (e : env) (b : backends) : backends :=
   {| b_items := fempty; b_add := fempty; b_del := b_items b;
      b_chg := fun j => (j <? nsh e) && existsb (fun x => isSome (b_items b x) && (sh e x =? j)) (UB e);
-     b_def := None |}.
+     b_def := None; b_defc := None |}.
 
 Definition backs_remove1 (e : env) (b : backends) (x : N) : backends :=
   match b_items b x with
   | Some c =>
     {| b_items := fdel (b_items b) x; b_add := b_add b; b_del := fset (b_del b) x c;
        b_chg := flag (b_chg b) (sh e x);
-       b_def := match b_def b with Some d => if d =? x then None else Some d | None => None end |}
+       b_def := match b_def b with Some d => if d =? x then None else Some d | None => None end;
+       b_defc := b_defc b |}
   | None => b
   end.
 Definition backs_remove (e : env) (b : backends) (l : list N) : backends := fold_left (backs_remove1 e) l b.
@@ -101,7 +105,7 @@ Definition backs_acquire (e : env) (b : backends) (x : N) (c : bcont) : backends
   | Some _ => b
   | None =>
     {| b_items := fset (b_items b) x c; b_add := fset (b_add b) x c; b_del := b_del b;
-       b_chg := flag (b_chg b) (sh e x); b_def := b_def b |}
+       b_chg := flag (b_chg b) (sh e x); b_def := b_def b; b_defc := b_defc b |}
   end.
 
 (* Shrink: len(add.Endpoints) <= len(del.Endpoints) && backendsMatch(add, del).  backendsMatch
@@ -121,15 +125,16 @@ Definition backs_shrink (e : env) (b : backends) : backends :=
      b_chg := if existsb m (UB e)
               then fun j => existsb (fun x => (isSome (add' x) || isSome (del' x)) && (sh e x =? j)) (UB e)
               else b_chg b;
-     b_def := b_def b |}.
+     b_def := b_def b; b_defc := b_defc b |}.
 Definition backs_commit (b : backends) : backends :=
-  {| b_items := b_items b; b_add := fempty; b_del := fempty; b_chg := fun _ => false; b_def := b_def b |}.
+  {| b_items := b_items b; b_add := fempty; b_del := fempty; b_chg := fun _ => false; b_def := b_def b;
+     b_defc := b_def b |}.
 Definition backs_change_all (e : env) (b : backends) : backends :=
   {| b_items := b_items b;
      b_add := fun x => match b_items b x with Some c => Some c | None => b_add b x end;
      b_del := b_del b;
      b_chg := fun j => (j <? nsh e) || b_chg b j;
-     b_def := b_def b |}.
+     b_def := b_def b; b_defc := b_defc b |}.
 Definition backs_changed (e : env) (b : backends) : bool :=
   existsb (fun x => isSome (b_add b x) || isSome (b_del b x)) (UB e).
 
@@ -228,7 +233,7 @@ Definition apply_op (e : env) (c : config) (o : op) : config :=
   | OTcpAcquire x tc => with_t c (tcps_acquire (c_t c) x tc)
   | ODefault d =>
     with_b c {| b_items := b_items (c_b c); b_add := b_add (c_b c); b_del := b_del (c_b c);
-                b_chg := b_chg (c_b c); b_def := d |}
+                b_chg := b_chg (c_b c); b_def := d; b_defc := b_defc (c_b c) |}
   end.
 Definition apply_ops (e : env) (c : config) (l : list op) : config := fold_left (apply_op e) l c.
 
@@ -267,6 +272,7 @@ Definition updated (e : env) (c : config) : bool :=
   match c_globold c with
   | Some g =>
     (g =? c_glob c) && negb (t_chg (c_t c)) && negb (hosts_changed e (c_h c)) &&
+    optN_eqb (b_defc (c_b c)) (b_def (c_b c)) &&                     (* DefaultBackendChanged *)
     forallb (fun x => match b_add (c_b c) x, b_del (c_b c) x with
                       | Some a, Some d => bcont_eqb a d      (* checkBackendPair *)
                       | Some _, None => false                (* added backend *)
@@ -317,12 +323,16 @@ Definition needs_map (c : bcont) : bool := bacl c && match bpaths c with [] => f
 
 Inductive fpoint :=
 | FTcpMaps | FFrontCrt | FFrontHost | FFrontRootRedir | FFrontRootSSL | FBackMaps | FTcpCrt
-| FMain | FShard (j : N) | FReloadRequest | FReloadResult.
+| FMain | FShard (j : N) | FReloadRequest | FReloadResult
+| FReloadReset     (* the connection carrying `reload` is reset by the master: Send returns an error *)
+| FReloadSilent.   (* the master drops `reload` (no answer, or garbage), does not reload, and its
+                      `show proc` shows the old worker: nothing tells reloadWorker / waitWorker *)
 Definition fpoint_eqb (a b : fpoint) : bool :=
   match a, b with
   | FTcpMaps, FTcpMaps | FFrontCrt, FFrontCrt | FFrontHost, FFrontHost | FFrontRootRedir, FFrontRootRedir
   | FFrontRootSSL, FFrontRootSSL | FBackMaps, FBackMaps | FTcpCrt, FTcpCrt | FMain, FMain
-  | FReloadRequest, FReloadRequest | FReloadResult, FReloadResult => true
+  | FReloadRequest, FReloadRequest | FReloadResult, FReloadResult
+  | FReloadReset, FReloadReset | FReloadSilent, FReloadSilent => true
   | FShard i, FShard j => i =? j
   | _, _ => false
   end.
@@ -448,8 +458,9 @@ Definition update_f (e : env) (fs : list fpoint) (s : inst) : inst * bool :=
   let (d5, err5) := ph_config e fs (i_clean s) c2 d4 in
   if err5 then finish c2 d5 (i_clean s) (i_running s) (i_pending s) true else
   if inline e then
-    if armed fs FReloadRequest || armed fs FReloadResult then finish c2 d5 true (i_running s) (i_pending s) true
-    else finish c2 d5 true (Some d5) (i_pending s) false
+    if armed fs FReloadRequest || armed fs FReloadResult || armed fs FReloadReset
+    then finish c2 d5 true (i_running s) (i_pending s) true
+    else finish c2 d5 true (if armed fs FReloadSilent then i_running s else Some d5) (i_pending s) false
   else finish c2 d5 true (i_running s) true false.
 
 Definition update (e : env) (s : inst) : inst * bool := update_f e [] s.
